@@ -112,6 +112,9 @@ type c06RT struct {
 }
 
 var c06RuntimeCases = []c06RT{
+	// writes to an exported member from another block of the same (merged) namespace: every form of assignment target
+	{"namespace-sibling-block-assignment", "namespace A { export let x = 1, y = 1, z = 1, w = [0], q = 1 } namespace A { x = 2; y++; z += 5; [w[0]] = [7]; ({q} = {q: 9}); export const seen = [x, y, z, w[0], q] }\nglobalThis.__f = () => [A.x, A.y, A.z, A.w, A.q, A.seen, typeof (globalThis as any).x, typeof (globalThis as any).q];",
+		"var A; (function (A) { A.x = 1; A.y = 1; A.z = 1; A.w = [0]; A.q = 1; })(A || (A = {})); (function (A) { A.x = 2; A.y++; A.z += 5; [A.w[0]] = [7]; ({q: A.q} = {q: 9}); A.seen = [A.x, A.y, A.z, A.w[0], A.q]; })(A || (A = {}));\nglobalThis.__f = () => [A.x, A.y, A.z, A.w, A.q, A.seen, typeof globalThis.x, typeof globalThis.q];", ""},
 	{"namespace-basic", "namespace N { export let a = 1; let hidden = 2; export function f() { return a + hidden } export class C {} export const {x, y: [z]} = {x: 5, y: [6]}; }\nglobalThis.__f = () => [N, N.f(), typeof N.C, Object.keys(N)];",
 		"var N; (function (N) { N.a = 1; let hidden = 2; function f() { return N.a + hidden } N.f = f; class C {} N.C = C; ({x: N.x, y: [N.z]} = {x: 5, y: [6]}); })(N || (N = {}));\nglobalThis.__f = () => [N, N.f(), typeof N.C, Object.keys(N)];", ""},
 	{"namespace-nested-merged", "namespace A.B.C { export let v = 1 } namespace A { export namespace B { export let u = 3 } export let w = B.C.v + 1 } namespace A.B { export let t = u + C.v }\nglobalThis.__f = () => [A, A.w, A.B.u, A.B.t];",
@@ -232,6 +235,7 @@ func c06Runtime(c *Check) {
 		}
 	}
 	c06CrossModule(c, pool)
+	c06Imports(c)
 }
 
 // const enum / enum inlining across modules under bundling.
